@@ -28,26 +28,65 @@ Print Assumptions C07_body_holds_lock.
 
 (* Each event is still delivered: the dispatch decisions do not depend on the Sequential option (C01). *)
 
-(* The ordering clause - "for an Async+Sequential handler, events published one after another by the same
-   goroutine are processed in publish order" - is FALSE of the faithful model: the second delivery goroutine may
-   take the handler's lock first.  Witness (known finding F2), the same schedule the harness forces on the real code: *)
-Theorem C07_async_order_refuted :
-  exists P cfg threads sched,
-    let ls := snd (run P cfg (init_state threads) sched) in
-    filter (fun l => match l with LEnter _ _ _ => true | _ => false end) ls = [LEnter 1 0 CtxBg; LEnter 0 0 CtxBg].
-Proof.
-  exists {| p_bodies := [(0, {| b_acts := [] |})]; p_filters := []; p_routes := fun _ => 0; p_nshards := 32; p_pfault := fun _ => PfOk |},
-         cfg0,
-         [[ASub 0 {| h_fn := 0; h_once := false; h_async := true; h_seq := true; h_ctx := false; h_filter := None; h_body := 0 |};
-           APub 0 1 CtxBg false; APub 0 2 CtxBg false; AWait]],
-         (repeat 0 30 ++ repeat 2 10 ++ repeat 1 10).
-  vm_compute. reflexivity.
-Qed.
-Print Assumptions C07_async_order_refuted.
+(* The ordering clause - "for an Async+Sequential handler, events published one after another by the same goroutine
+   are processed in publish order".  Deliveries to such a handler are queued at dispatch, on the publishing goroutine
+   (so one goroutine's publishes are queued in the order it made them: its code is sequential), and:
 
-(* What does hold about order (partial): a synchronous Sequential handler runs on the publisher's own goroutine,
-   inside the publish call - so events published one after another by one goroutine reach it in that order; and an
-   async delivery that has taken the lock before the next publish is ahead of it (C07_mutex). *)
+   over every schedule of every program the queue discipline holds - everybody in a queue is an unfinished delivery,
+   everybody behind the head has not started, nobody is queued twice or in two queues, a fresh delivery of a
+   Sequential handler is in its handler's queue - *)
+Theorem C07_turn_queue : forall P cfg s, reachable P cfg s -> qinv s.
+Proof. exact turn_queue_discipline. Qed.
+Print Assumptions C07_turn_queue.
+
+(* - the dispatch step appends the new delivery to the end of the handler's queue and of the dispatch log, on the
+   publishing goroutine - *)
+Theorem C07_dispatch_queues_at_end : forall P cfg s a p h rest s' ls,
+  h_async (r_spec h) = true -> h_seq (r_spec h) = true ->
+  step_instr P cfg s a (IDispatch p h) rest = Some (s', ls) ->
+  turnlog s' = turnlog s ++ [(r_id h, next_actor s)] /\ queue s' (r_id h) = queue s (r_id h) ++ [next_actor s] /\
+  (a <> next_actor s -> assoc_get (code s') (next_actor s) = Some [ITaskStart p h]) /\
+  assoc_get (code s') a = Some rest.
+Proof. exact dispatch_queues_at_end. Qed.
+Print Assumptions C07_dispatch_queues_at_end.
+
+(* - what has been dispatched to the handler is, in order, what has finished followed by what is still queued: the
+   deliveries finish in exactly the order in which they were dispatched - *)
+Theorem C07_async_sequential_fifo : forall P cfg s, reachable P cfg s ->
+  forall rid, on rid (turnlog s) = on rid (turndone s) ++ queue s rid.
+Proof. exact async_sequential_fifo. Qed.
+Print Assumptions C07_async_sequential_fifo.
+
+(* - and a delivery starts (so its handler body runs) only when everything dispatched to the handler before it has
+   finished: at its start step it is the first unfinished entry of the dispatch log. *)
+Theorem C07_async_sequential_starts_in_turn : forall P cfg s a p h rest s' ls, reachable P cfg s ->
+  h_seq (r_spec h) = true ->
+  step_instr P cfg s a (ITaskStart p h) rest = Some (s', ls) ->
+  exists later, on (r_id h) (turnlog s) = on (r_id h) (turndone s) ++ a :: later.
+Proof. exact async_sequential_starts_in_turn. Qed.
+Print Assumptions C07_async_sequential_starts_in_turn.
+
+Theorem C07_queued_deliveries_have_not_started : forall P cfg s, reachable P cfg s ->
+  forall rid hd more b, queue s rid = hd :: more -> In b more ->
+    exists p h, assoc_get (code s) b = Some [ITaskStart p h] /\ r_id h = rid /\ h_seq (r_spec h) = true.
+Proof. exact queued_deliveries_have_not_started. Qed.
+Print Assumptions C07_queued_deliveries_have_not_started.
+
+(* The schedule that used to reverse the order (finding F2, repaired in /repo: the second delivery goroutine is run
+   first) now leaves the second delivery waiting: it is not enabled until the first has finished. *)
+Example C07_second_delivery_waits :
+  let P := {| p_bodies := [(0, {| b_acts := [] |})]; p_filters := []; p_routes := fun _ => 0; p_nshards := 32; p_pfault := fun _ => PfOk |} in
+  let threads := [[ASub 0 {| h_fn := 0; h_once := false; h_async := true; h_seq := true; h_ctx := false; h_filter := None; h_body := 0 |};
+                   APub 0 1 CtxBg false; APub 0 2 CtxBg false; AWait]] in
+  let s := fst (run P cfg0 (init_state threads) (repeat 0 30)) in
+  queue s 0 = [1; 2] /\ mstep P cfg0 s 2 = None /\
+  filter (fun l => match l with LEnter _ _ _ => true | _ => false end)
+         (snd (run P cfg0 (init_state threads) (repeat 0 30 ++ repeat 2 10 ++ repeat 1 10 ++ repeat 2 10))) =
+    [LEnter 0 0 CtxBg; LEnter 1 0 CtxBg].
+Proof. vm_compute. auto. Qed.
+
+(* A synchronous Sequential handler runs on the publisher's own goroutine, inside the publish call - so events
+   published one after another by one goroutine reach it in that order. *)
 Example C07_nonvacuous :
   let P := {| p_bodies := [(0, {| b_acts := [] |})]; p_filters := []; p_routes := fun _ => 0; p_nshards := 32; p_pfault := fun _ => PfOk |} in
   let sp := {| h_fn := 0; h_once := false; h_async := false; h_seq := true; h_ctx := false; h_filter := None; h_body := 0 |} in
